@@ -57,6 +57,14 @@ CHECKS = {
              "benign marker identifier to have become one identifier token in the dialect's quote character decoding to the name, nothing else "
              "changed. Exhaustive over alphabet x site x dialect within the bound.",
         ref="6/C07", technique="TLA+ reference lexer + identifier encoder round-trip (PT_Lex, MC_Lex); TLC lexes real statement text (J_Lit)"),
+    "C17": dict(
+        text="TLC generates the full cross product of table constructions (name x 5 schema forms x alias x 3 temporal clauses x 2 query classes = 120), "
+             "and 486 expression trees over fields of three tables with overlapping column names in every operand order, computing FieldsOf/TablesOf "
+             "on each tree. The executor records ==, !=, hash and set/dict/list membership matrices for the table universes (and for schemas, "
+             "aliased queries and query builders) before and after rendering, and fields_()/tables_ of each built expression. TLC evaluates the "
+             "laws over all pairs and triples (reflexive, symmetric, transitive, == => equal hash, != = not ==, membership = linear search, "
+             "stable under rendering) and compares the collections with the oracle. Exhaustive over the variant product.",
+        ref="6/C17", technique="TLA+ laws and FieldsOf oracle (PT_Eq); TLC generates variants/trees (MC_Eq) and judges recorded matrices (J_Eq)"),
     "C18": dict(
         text="TLC proves on the specification that the intended encoder round-trips through the field-layout decoder for every 7-tuple "
              "over the digit-pattern set (either sign of the leading component, quarters, weeks, both templates); the same tuples plus "
